@@ -5,6 +5,9 @@ import (
 	"fmt"
 	"io"
 	"strings"
+
+	"github.com/cloudwego/eino/components/tool"
+	"github.com/cloudwego/eino/schema"
 )
 
 // C05 / C06: interrupt + resume is equivalent to the uninterrupted run; interrupt points are honoured and reported.
@@ -376,7 +379,7 @@ func c05WorkflowShape(shape int) {
 		}
 		info, ok := ExtractInterruptInfo(rerr)
 		a6(ok, "workflow: a run of interrupt-configured nodes fails only with an interrupt error ("+desc+")")
-		a5(ok, "workflow: the resumed run does not fail with a non-interrupt error ("+desc+")")
+		vassert(ok, "workflow: the resumed run does not fail with a non-interrupt error ("+desc+")")
 		if !ok {
 			return
 		}
@@ -518,7 +521,7 @@ func c05NestedLoop() {
 			break
 		}
 		info, ok := ExtractInterruptInfo(rerr)
-		a5(ok, "nested: the resumed run does not fail with a non-interrupt error ("+desc+")")
+		vassert(ok, "nested: the resumed run does not fail with a non-interrupt error ("+desc+")")
 		a6(ok, "nested: a run with nested interrupt points fails only with an interrupt error ("+desc+")")
 		if !ok {
 			return
@@ -618,7 +621,7 @@ func c05ParallelNested() {
 			break
 		}
 		info, ok := ExtractInterruptInfo(rerr)
-		a5(ok, "parallel nested: the resumed run does not fail with a non-interrupt error")
+		vassert(ok, "parallel nested: the resumed run does not fail with a non-interrupt error")
 		a6(ok, "parallel nested: only interrupt errors")
 		if !ok {
 			return
@@ -719,7 +722,7 @@ func c05Rerun() {
 	_, e1 := call(ri, first, WithCheckPointID("cp"))
 	info, ok := ExtractInterruptInfo(e1)
 	a6(ok, "rerun: a node asking for interrupt-and-rerun (also through a wrapping error) yields an interrupt error with extractable info")
-	a5(ok, "rerun: the first call is interrupted")
+	vassert(ok, "rerun: the first call is interrupted")
 	if !ok {
 		return
 	}
@@ -839,7 +842,7 @@ func c05TypedChain() {
 			break
 		}
 		info, ok := ExtractInterruptInfo(rerr)
-		a5(ok, "typed chain: the run is only ever stopped by interrupts, not by a conversion failure ("+desc+")")
+		vassert(ok, "typed chain: the run is only ever stopped by interrupts, reported as such (not by a conversion failure) ("+desc+")")
 		if !ok {
 			return
 		}
@@ -948,7 +951,7 @@ func c05Lanes(dag bool) {
 			break
 		}
 		info, ok := ExtractInterruptInfo(rerr)
-		a5(ok, "lanes: the (resumed) run does not fail with a non-interrupt error")
+		vassert(ok, "lanes: the (resumed) run does not fail with a non-interrupt error")
 		a6(ok, "lanes: only interrupt errors")
 		if !ok {
 			return
@@ -1113,7 +1116,7 @@ func c05EagerMix() {
 			break
 		}
 		_, ok := ExtractInterruptInfo(rerr)
-		a5(ok, "eager mix: the (resumed) run does not fail with a non-interrupt error, whatever the completion order")
+		vassert(ok, "eager mix: the (resumed) run does not fail with a non-interrupt error, whatever the completion order")
 		a6(ok, "eager mix: only interrupt errors")
 		if !ok {
 			return
@@ -1195,7 +1198,7 @@ func c05RerunControlOnly() {
 			break
 		}
 		_, ok := ExtractInterruptInfo(rerr)
-		a5(ok, "rerun + control-only: the (resumed) run does not fail with a non-interrupt error")
+		vassert(ok, "rerun + control-only: the (resumed) run does not fail with a non-interrupt error")
 		a6(ok, "rerun + control-only: only interrupt errors")
 		if !ok {
 			return
@@ -1306,7 +1309,7 @@ func c05TypedJoin() {
 		if !ok {
 			vlog("error: " + rerr.Error())
 		}
-		a5(ok, "typed join: the (resumed) run is only ever stopped by interrupts, not by a checkpoint conversion failure")
+		vassert(ok, "typed join: the (resumed) run is only ever stopped by interrupts, not by a checkpoint conversion failure")
 		a6(ok, "typed join: only interrupt errors")
 		if !ok {
 			return
@@ -1388,7 +1391,7 @@ func c05SubGraphKeys() {
 			break
 		}
 		_, ok := ExtractInterruptInfo(rerr)
-		a5(ok, "nested graph with an input key: the (resumed) run does not fail with a non-interrupt error")
+		vassert(ok, "nested graph with an input key: the (resumed) run does not fail with a non-interrupt error")
 		a6(ok, "nested graph with an input key: only interrupt errors")
 		if !ok {
 			return
@@ -1452,7 +1455,7 @@ func c05WaitingValue() {
 			break
 		}
 		_, ok := ExtractInterruptInfo(rerr)
-		a5(ok, "waiting value: the (resumed) run is only ever stopped by interrupts")
+		vassert(ok, "waiting value: the (resumed) run is only ever stopped by interrupts")
 		a6(ok, "waiting value: only interrupt errors")
 		if !ok {
 			return
@@ -1466,3 +1469,201 @@ func c05WaitingValue() {
 
 func VerifC05WaitingValue() { c05WaitingValue() }
 func VerifC06WaitingValue() { c05Mode = 6; c05WaitingValue() }
+
+type c05TS struct{ Msg *schema.Message }
+
+type c05AskTool struct {
+	attempts *int
+	ask      bool
+}
+
+func (t *c05AskTool) Info(ctx context.Context) (*schema.ToolInfo, error) {
+	return &schema.ToolInfo{Name: "ask"}, nil
+}
+func (t *c05AskTool) InvokableRun(ctx context.Context, args string, opts ...tool.Option) (string, error) {
+	*t.attempts++
+	if t.ask && *t.attempts == 1 {
+		return "", InterruptAndRerun
+	}
+	return "answer(" + args + ")", nil
+}
+
+// A tool of the bundled ToolsNode asks for interrupt-and-rerun (the tools node wraps the tool's error): in Invoke and
+// in Stream alike the run is interrupted with the tools node in RerunNodes, a checkpoint is written, and the resumed
+// run gives the tool messages of the uninterrupted run.
+func c05ToolRerun() {
+	ctx := context.Background()
+	vcfg("fifo", 1)
+	vcfg("selectfirst", 1)
+	_ = RegisterSerializableType[c05TS]("c05_ts")
+	first := vchoose("firstParadigm", 2)
+	second := vchoose("secondParadigm", 2)
+	ix := 0
+	msg := &schema.Message{Role: schema.Assistant, ToolCalls: []schema.ToolCall{{Index: &ix, ID: "c1", Function: schema.FunctionCall{Name: "ask", Arguments: "x"}}}}
+	build := func(ask bool, store CheckPointStore, attempts *int) (Runnable[*schema.Message, []*schema.Message], error) {
+		tn, err := NewToolNode(ctx, &ToolsNodeConfig{Tools: []tool.BaseTool{&c05AskTool{attempts, ask}}})
+		if err != nil {
+			return nil, err
+		}
+		g := NewGraph[*schema.Message, []*schema.Message](WithGenLocalState(func(ctx context.Context) *c05TS { return &c05TS{} }))
+		_ = g.AddToolsNode("tools", tn, WithStatePreHandler(func(ctx context.Context, in *schema.Message, s *c05TS) (*schema.Message, error) {
+			if in != nil {
+				s.Msg = in
+			}
+			return s.Msg, nil
+		}))
+		_ = g.AddEdge(START, "tools")
+		_ = g.AddEdge("tools", END)
+		var opts []GraphCompileOption
+		if store != nil {
+			opts = append(opts, WithCheckPointStore(store))
+		}
+		return g.Compile(ctx, opts...)
+	}
+	call := func(r Runnable[*schema.Message, []*schema.Message], paradigm int, opts ...Option) ([]*schema.Message, error) {
+		if paradigm == 0 {
+			return r.Invoke(ctx, msg, opts...)
+		}
+		sr, err := r.Stream(ctx, msg, opts...)
+		if err != nil {
+			return nil, err
+		}
+		defer sr.Close()
+		res := &schema.Message{Role: schema.Tool}
+		for i := 0; i < 8; i++ {
+			c, err := sr.Recv()
+			if err == io.EOF {
+				break
+			}
+			if err != nil {
+				return nil, err
+			}
+			if len(c) == 1 && c[0] != nil { // one call: every chunk carries a fragment of the one tool message
+				res.Content += c[0].Content
+				res.ToolCallID = c[0].ToolCallID
+			}
+		}
+		return []*schema.Message{res}, nil
+	}
+	var at0 int
+	ru, err := build(false, nil, &at0)
+	vassert(err == nil, "twin compiles")
+	want, werr := ru.Invoke(ctx, msg)
+	vassert(werr == nil && len(want) == 1, "uninterrupted run succeeds")
+	store := &vStore{m: map[string][]byte{}}
+	var at int
+	ri, err := build(true, store, &at)
+	vassert(err == nil, "graph with an asking tool compiles")
+	_, e1 := call(ri, first, WithCheckPointID("cp"))
+	info, ok := ExtractInterruptInfo(e1)
+	vassert(ok, "tool rerun: a tool asking for interrupt-and-rerun interrupts the run in every paradigm (extractable info)")
+	if !ok {
+		return
+	}
+	a6(len(info.RerunNodes) == 1 && info.RerunNodes[0] == "tools", "tool rerun: the interrupt names the tools node in RerunNodes")
+	a6(store.sets == 1, "tool rerun: a checkpoint is written under the id when the interrupt is returned")
+	out, e2 := call(ri, second, WithCheckPointID("cp"))
+	a5(e2 == nil && len(out) == 1, "tool rerun: the resumed run completes")
+	if e2 == nil && len(out) == 1 {
+		a5(out[0].Content == want[0].Content && out[0].ToolCallID == "c1", "tool rerun: the resumed run returns the tool message of the uninterrupted run")
+	}
+	a5(at == 2, "tool rerun: the tool that asked runs once more after resume")
+}
+
+func VerifC05ToolRerun() { c05ToolRerun() }
+func VerifC06ToolRerun() { c05Mode = 6; c05ToolRerun() }
+
+// A stream-native chain filter -> count: the filter may emit no chunk at all, the counter reports how many chunks it
+// saw. Interrupted before the counter in a streaming run and resumed, the counter sees what it sees uninterrupted:
+// an empty pending stream stays empty, a stream of k chunks keeps its content.
+func c05EmptyStream() {
+	ctx := context.Background()
+	vcfg("fifo", 1)
+	vcfg("selectfirst", 1)
+	keep := vchoose("keep", 3) // how many of the two input chunks the filter lets through
+	x := vsymStr("x")
+	build := func(store CheckPointStore) (Runnable[string, string], error) {
+		g := NewGraph[string, string]()
+		_ = g.AddLambdaNode("filter", TransformableLambda(func(ctx context.Context, in *schema.StreamReader[string]) (*schema.StreamReader[string], error) {
+			var kept []string
+			for i := 0; i < 4; i++ {
+				c, err := in.Recv()
+				if err != nil {
+					break
+				}
+				if len(kept) < keep {
+					kept = append(kept, c)
+				}
+			}
+			in.Close()
+			return schema.StreamReaderFromArray(kept), nil
+		}))
+		_ = g.AddLambdaNode("count", TransformableLambda(func(ctx context.Context, in *schema.StreamReader[string]) (*schema.StreamReader[string], error) {
+			n := 0
+			all := ""
+			for i := 0; i < 4; i++ {
+				c, err := in.Recv()
+				if err != nil {
+					break
+				}
+				n++
+				all += c
+			}
+			in.Close()
+			return schema.StreamReaderFromArray([]string{[]string{"zero:", "one:", "two:", "many:"}[n], all}), nil
+		}))
+		_ = g.AddEdge(START, "filter")
+		_ = g.AddEdge("filter", "count")
+		_ = g.AddEdge("count", END)
+		if store != nil {
+			return g.Compile(ctx, WithCheckPointStore(store), WithInterruptBeforeNodes([]string{"count"}))
+		}
+		return g.Compile(ctx)
+	}
+	call := func(r Runnable[string, string], opts ...Option) (string, error) {
+		sr, err := r.Transform(ctx, schema.StreamReaderFromArray([]string{x, "b"}), opts...)
+		if err != nil {
+			return "", err
+		}
+		defer sr.Close()
+		out := ""
+		for i := 0; i < 8; i++ {
+			c, err := sr.Recv()
+			if err == io.EOF {
+				break
+			}
+			if err != nil {
+				return "", err
+			}
+			out += c
+		}
+		return out, nil
+	}
+	ru, err := build(nil)
+	vassert(err == nil, "twin compiles")
+	want, werr := call(ru)
+	vassert(werr == nil, "uninterrupted streaming run succeeds")
+	store := &vStore{m: map[string][]byte{}}
+	ri, err := build(store)
+	vassert(err == nil, "graph compiles")
+	_, e1 := call(ri, WithCheckPointID("cp"))
+	_, ok := ExtractInterruptInfo(e1)
+	vassert(ok, "empty stream: the run is interrupted before the counter")
+	if !ok {
+		return
+	}
+	out, e2 := call(ri, WithCheckPointID("cp"))
+	a5(e2 == nil, "empty stream: the resumed run completes")
+	if keep == 1 {
+		// one pending chunk: it may come back as one chunk; its content must be the same
+		a5(out == want, "empty stream: a pending one-chunk stream survives the checkpoint")
+	} else if keep == 0 {
+		a5(out == want, "empty stream: a pending stream without any chunk is still without any chunk after the resume")
+	} else {
+		// two pending chunks are concatenated by the checkpoint: the content survives (the chunking is not claimed)
+		a5(out == want || out == "one:"+x+"b", "empty stream: the content of a pending two-chunk stream survives the checkpoint")
+	}
+}
+
+func VerifC05EmptyStream() { c05EmptyStream() }
+func VerifC06EmptyStream() { c05Mode = 6; c05EmptyStream() }
